@@ -100,33 +100,34 @@ const (
 
 // NegScript is the server's behaviour on one connection.
 type NegScript struct {
-	Header     int      `json:"header"`
-	Header2    int      `json:"header_after_tls"`
-	Header3    int      `json:"header_after_auth"`
-	StartTLS   int      `json:"starttls"`
-	Mechs      []string `json:"mechs"`
-	MechsTLS   []string `json:"mechs_after_tls,omitempty"` // if set, the list advertised once TLS is up
-	ExtraFeats bool     `json:"extra_features"`
-	TLSReply   int      `json:"tls_reply"`
-	Cert       int      `json:"cert"`
-	TLS12      bool     `json:"tls_1_2_only,omitempty"` // the server does not speak TLS 1.3
-	AuthReply  int      `json:"auth_reply"`
-	AuthCond   string   `json:"auth_cond,omitempty"`
-	Session    int      `json:"session"`
-	SM         bool     `json:"sm"`
-	Resume     int      `json:"resume_reply"`
-	ResumeAlt  int      `json:"resume_reply_variant,omitempty"`
-	ResumedH   int      `json:"resumed_h,omitempty"` // the h of <resumed/>: what the server says it has handled
-	Bind       int      `json:"bind_reply"`
-	SessionRep int      `json:"session_reply"`
-	Enable     int      `json:"enable_reply"`
-	SMId       string   `json:"sm_id"`
-	SMLocation string   `json:"sm_location,omitempty"`
-	Prefixed   bool     `json:"prefixed_syntax"` // harmless syntax variation of success replies
-	Spaces     bool     `json:"whitespace_between"`
-	DelayMs    int      `json:"reply_delay_ms"`
-	StreamID   string   `json:"stream_id"`
-	AutoAckR   bool     `json:"auto_ack"` // answer <r/> like a real server
+	Header       int      `json:"header"`
+	Header2      int      `json:"header_after_tls"`
+	Header3      int      `json:"header_after_auth"`
+	StartTLS     int      `json:"starttls"`
+	Mechs        []string `json:"mechs"`
+	MechsTLS     []string `json:"mechs_after_tls,omitempty"` // if set, the list advertised once TLS is up
+	ExtraFeats   bool     `json:"extra_features"`
+	ForeignMechs []string `json:"mechanisms_in_another_namespace,omitempty"` // a <mechanisms/> feature of another protocol (e.g. urn:xmpp:sasl:1) listing these names
+	TLSReply     int      `json:"tls_reply"`
+	Cert         int      `json:"cert"`
+	TLS12        bool     `json:"tls_1_2_only,omitempty"` // the server does not speak TLS 1.3
+	AuthReply    int      `json:"auth_reply"`
+	AuthCond     string   `json:"auth_cond,omitempty"`
+	Session      int      `json:"session"`
+	SM           bool     `json:"sm"`
+	Resume       int      `json:"resume_reply"`
+	ResumeAlt    int      `json:"resume_reply_variant,omitempty"`
+	ResumedH     int      `json:"resumed_h,omitempty"` // the h of <resumed/>: what the server says it has handled
+	Bind         int      `json:"bind_reply"`
+	SessionRep   int      `json:"session_reply"`
+	Enable       int      `json:"enable_reply"`
+	SMId         string   `json:"sm_id"`
+	SMLocation   string   `json:"sm_location,omitempty"`
+	Prefixed     bool     `json:"prefixed_syntax"` // harmless syntax variation of success replies
+	Spaces       bool     `json:"whitespace_between"`
+	DelayMs      int      `json:"reply_delay_ms"`
+	StreamID     string   `json:"stream_id"`
+	AutoAckR     bool     `json:"auto_ack"` // answer <r/> like a real server
 }
 
 // ResumeUnreadableReplies are answers to <resume/> that are neither <resumed/> nor <failed/> of
@@ -362,6 +363,13 @@ func (sc *SrvConn) features() string {
 			case TLSRequired:
 				b.WriteString(sc.sep() + "<starttls xmlns='" + nsTLS + "'><required/></starttls>")
 			}
+		}
+		if len(scr.ForeignMechs) > 0 {
+			b.WriteString(sc.sep() + "<mechanisms xmlns='urn:xmpp:sasl:1'>")
+			for _, m := range scr.ForeignMechs {
+				b.WriteString("<mechanism>" + xmlEscape(m) + "</mechanism>")
+			}
+			b.WriteString("</mechanisms>")
 		}
 		b.WriteString(sc.sep() + "<mechanisms xmlns='" + nsSASL + "'>")
 		mechs := scr.Mechs
